@@ -30,6 +30,12 @@ type c14Case struct {
 	K       int    `json:"fail_after_bytes"`
 	Kind    string `json:"kind"` // eof | reset | timeout
 	Timeout int    `json:"packet_read_timeout_s"`
+	// Poll: after the prefix the consumer polls with wait=false instead of waiting
+	Poll bool `json:"consumer_polls,omitempty"`
+	// WriteFault n > 0: the request that precedes the response is 3 packets long and the
+	// transport fails its n-th write (the server stopped reading); the response to what it
+	// did receive arrives afterwards
+	WriteFault int `json:"request_write_fails_at,omitempty"`
 }
 
 func failErr(kind string) error {
@@ -109,6 +115,12 @@ func runCase(c c14Case) (f *vh.Failure) {
 	}
 	where := fmt.Sprintf("response [%s] (%d bytes in %d packets, TCP %d bytes), transport fails with %s after %d bytes (%d packets complete), read timeout %d s", respgen.Describe(c.Pkgs), len(stream), len(packets), len(tcp), c.Kind, c.K, complete, c.Timeout)
 
+	if c.Poll {
+		where += ", polling consumer"
+	}
+	if c.WriteFault > 0 {
+		where += fmt.Sprintf(", after a request whose write %d failed", c.WriteFault)
+	}
 	ctx, cancel := context.WithCancel(context.Background())
 	pipe := peer.NewPipe()
 	conn, done, err := tds.VerifNewConn(ctx, pipe, &tds.Info{ChannelPackageQueueSize: 10000, PacketReadTimeout: c.Timeout}, true)
@@ -136,6 +148,22 @@ func runCase(c c14Case) (f *vh.Failure) {
 			}
 		}
 	}()
+	if c.WriteFault > 0 {
+		pipe.FailWrites(func(n int, b []byte) (int, error) {
+			if n < c.WriteFault {
+				return len(b), nil
+			}
+			return 0, peer.ErrReset
+		})
+		cmd := make([]byte, 1200)
+		for i := range cmd {
+			cmd[i] = 'x'
+		}
+		if err := ch.SendPackage(ctx, &tds.LanguagePackage{Cmd: string(cmd)}); err == nil {
+			return vh.Failf("C14/write-fault-not-reported", "%s: write %d of the request failed, SendPackage returned nil", where, c.WriteFault)
+		}
+		vh.Label("request-write-failed-before-response")
+	}
 	start := time.Now()
 	pipe.FailAfter(c.K, failErr(c.Kind))
 	pipe.Feed(tcp)
@@ -180,7 +208,24 @@ func runCase(c c14Case) (f *vh.Failure) {
 	// then an error, promptly, while the context is live
 	t0 := time.Now()
 	wctx, wcancel := context.WithTimeout(ctx, bound)
-	p, err := ch.NextPackage(wctx, true)
+	var p tds.Package
+	if c.Poll {
+		// a polling consumer is told about the failure as well ("nothing ready yet" is not it)
+		for {
+			p, err = ch.NextPackage(wctx, false)
+			if !errors.Is(err, tds.ErrNoPackageReady) {
+				break
+			}
+			if wctx.Err() != nil {
+				wcancel()
+				return vh.Failf("C14/polling-consumer-never-told", "%s: a consumer polling with wait=false got ErrNoPackageReady for %v and never the failure", where, time.Since(t0))
+			}
+			time.Sleep(50 * time.Microsecond)
+		}
+		vh.Label("consumer-polls")
+	} else {
+		p, err = ch.NextPackage(wctx, true)
+	}
 	wcancel()
 	if err == nil {
 		return vh.Failf("C14/package-after-failure", "%s: after the prefix NextPackage returned another package %T instead of an error", where, p)
@@ -277,7 +322,11 @@ func TestEveryOffset(t *testing.T) {
 		for k := 0; k <= total; k++ {
 			for _, kind := range []string{"eof", "reset", "timeout"} {
 				n++
-				if !e.Do(c14Case{Pkgs: ps, Cuts: cuts, K: k, Kind: kind, Timeout: 0}) {
+				cs := c14Case{Pkgs: ps, Cuts: cuts, K: k, Kind: kind, Timeout: 0, Poll: n%3 == 0}
+				if n%5 == 0 {
+					cs.WriteFault = 1 + n/5%3
+				}
+				if !e.Do(cs) {
 					return
 				}
 			}
@@ -294,7 +343,11 @@ func TestRandomFaults(t *testing.T) {
 		ps, cuts := genResp(rt)
 		stream, _, _, _ := rc.EncodeStream(ps)
 		total := len(stream) + 8*(len(cuts)+1)
-		return c14Case{Pkgs: ps, Cuts: cuts, K: rapid.IntRange(0, total).Draw(rt, "k"), Kind: rapid.SampledFrom([]string{"eof", "reset", "timeout"}).Draw(rt, "kind"), Timeout: 0}
+		c := c14Case{Pkgs: ps, Cuts: cuts, K: rapid.IntRange(0, total).Draw(rt, "k"), Kind: rapid.SampledFrom([]string{"eof", "reset", "timeout"}).Draw(rt, "kind"), Timeout: 0, Poll: rapid.Bool().Draw(rt, "poll")}
+		if rapid.IntRange(0, 3).Draw(rt, "writefault") == 0 {
+			c.WriteFault = rapid.IntRange(1, 3).Draw(rt, "failat")
+		}
+		return c
 	}
 	vh.Check(t, "TestRandomFaults", vh.N(1500, 30000), gen, runCase)
 }
